@@ -82,7 +82,7 @@ Qed.
 
 Theorem parseHeaders_sound isReq lim fs te h :
   0 <= lim -> parseHeaders isReq lim fs te = inr h ->
-  te = false /\ WFx isReq lim fs /\ h = hdr_of fs.
+  te = false /\ WF isReq lim fs /\ cl_fits fs /\ h = hdr_of fs.
 Proof.
   intros Hlim H. unfold parseHeaders in H.
   assert (Hte : te = false).
@@ -90,79 +90,62 @@ Proof.
   subst te. split; auto.
   destruct (ploop isReq (pinit lim) fs false) as [e|st] eqn:Hl; [discriminate|].
   pose proof (ploop_cl_last _ _ _ _ Hl) as Hcl.
-  destruct (ploop_cl _ _ _ _ Hl) as (I1 & _ & _).
-  split.
-  - unfold WFx. split; [eapply ploop_fields; eauto|]. split; [eapply ploop_pseudo_first; eauto|].
-    split; [eapply ploop_pseudo_unique_x; eauto|]. split.
+  destruct (ploop_cl _ _ _ _ Hl) as (I1 & _ & I3).
+  unfold pfinish in H.
+  (* a Content-Length field, if any, carries the string that ParseUint accepted *)
+  assert (Hnum : forall f, In f fs -> is_cl f -> numeric (fvalue f) /\ dec_value (fvalue f) < 2 ^ 63).
+  { intros f Hf Hn. destruct (I1 f Hf Hn) as [E Hrc]. rewrite E. rewrite Hrc in H. cbn [negb] in H.
+    destruct (parse_uint63 (pCL st)) as [v|] eqn:Ep; [|discriminate].
+    apply parse_uint63_spec in Ep as (P1 & _ & P3). auto. }
+  split; [|split].
+  - unfold WF. split; [eapply ploop_fields; eauto|]. split; [eapply ploop_pseudo_first; eauto|].
+    split; [eapply ploop_pseudo_unique; eauto|]. split.
     + split.
-      * intros f Hf Hn. destruct (I1 f Hf Hn) as [E _]. rewrite E.
-        unfold pfinish in H. destruct (is_empty (pCL st)) eqn:Ee.
-        -- left. apply is_empty_true; auto.
-        -- right. destruct (parse_uint63 (pCL st)) as [v|] eqn:Ep; [|discriminate].
-           apply parse_uint63_spec in Ep as (P1 & _ & P3). auto.
+      * intros f Hf Hn. apply Hnum; auto.
       * intros f g Hf Hg Hnf Hng. destruct (I1 f Hf Hnf) as [E1 _]. destruct (I1 g Hg Hng) as [E2 _]. congruence.
     + destruct (ploop_size _ _ _ _ Hl) as [S1 S2]. simpl in S1, S2. specialize (S2 Hlim). lia.
-  - unfold pfinish in H. unfold hdr_of. rewrite <- Hcl.
+  - intros f Hf Hn. apply Hnum; auto.
+  - unfold hdr_of. rewrite <- Hcl.
     rewrite <- (ploop_pseudos _ _ _ _ Hl).
     pose proof (ploop_headers _ _ _ _ Hl) as Hh. simpl in Hh. change (headers_from fs []) with (headers_of fs) in Hh.
     rewrite <- Hh.
-    destruct (is_empty (pCL st)); [inversion H; reflexivity|].
-    destruct (parse_uint63 (pCL st)) as [v|] eqn:Ep; [|discriminate].
-    apply parse_uint63_spec in Ep as (_ & P2 & _). inversion H. subst v. reflexivity.
+    destruct (pReadCL st) eqn:Erc; cbn [negb] in H.
+    + destruct (parse_uint63 (pCL st)) as [v|] eqn:Ep; [|discriminate].
+      apply parse_uint63_spec in Ep as ([Pne _] & P2 & _). inversion H. subst v.
+      replace (is_empty (pCL st)) with false by (symmetry; apply is_empty_false; auto). reflexivity.
+    + inversion H.
+      replace (is_empty (pCL st)) with true; [reflexivity|]. symmetry. apply is_empty_true.
+      change (bs "content-length") with n_content_length in Hcl.
+      destruct (last_value_cases n_content_length fs) as [[_ E]|(g & Hg & Hgn & _)]; [congruence|].
+      destruct (I1 g Hg Hgn) as [_ Hrc]. congruence.
 Qed.
 
-(** The two weakenings are the only difference to the RFC predicate. *)
-Lemma WFx_WF isReq lim fs :
-  WFx isReq lim fs -> no_empty_pseudo fs -> no_empty_cl fs -> WF isReq lim fs.
-Proof.
-  intros (H1 & H2 & H3 & [H4 H4'] & H5) Hp Hc. unfold WF.
-  split; [exact H1|]. split; [exact H2|]. split; [|split; [split|exact H5]].
-  - intros l1 f l2 g l3 E Hf Hfg.
-    assert (Hin : In f fs) by (subst fs; apply in_or_app; right; left; reflexivity).
-    apply (Hp f Hin Hf). eapply H3; eauto.
-  - intros f Hf Hcl. destruct (H4 f Hf Hcl) as [E|[E _]]; [exfalso; eapply Hc; eauto|exact E].
-  - exact H4'.
-Qed.
+Corollary parseHeaders_pseudo_unique isReq lim fs te h :
+  0 <= lim -> parseHeaders isReq lim fs te = inr h -> pseudo_unique fs.
+Proof. intros Hl H. apply parseHeaders_sound in H as (_ & (_ & _ & Hu & _) & _); auto. Qed.
 
-Lemma WF_WFx isReq lim fs :
-  WF isReq lim fs -> (forall f, In f fs -> is_cl f -> dec_value (fvalue f) < 2 ^ 63) -> WFx isReq lim fs.
-Proof.
-  intros (H1 & H2 & H3 & [H4 H4'] & H5) Hr. unfold WFx.
-  split; [exact H1|]. split; [exact H2|]. split; [|split; [split|exact H5]].
-  - intros l1 f l2 g l3 E Hf Hfg. exfalso. eapply H3; eauto.
-  - intros f Hf Hc. right. split; auto.
-  - exact H4'.
-Qed.
+Corollary parseHeaders_cl_wf isReq lim fs te h :
+  0 <= lim -> parseHeaders isReq lim fs te = inr h -> cl_wf fs.
+Proof. intros Hl H. apply parseHeaders_sound in H as (_ & (_ & _ & _ & Hc & _) & _); auto. Qed.
 
-(** ** The refuting witnesses (replayed on the implementation by the harness corpus) *)
+(** ** The former refuting witnesses are now rejected (regression examples) *)
 
 Definition mk (n v : string) : field := F (bs n) (bs v).
 
 Definition dup_witness : list field :=
   [mk ":method" "GET"; mk ":path" ""; mk ":path" "/a"; mk ":authority" "x"; mk ":scheme" "https"].
 
-Lemma pseudo_unique_refuted :
-  exists fs h, parseHeaders true 65536 fs false = inr h /\ ~ pseudo_unique fs /\ sPath (hPs h) = bs "/a".
-Proof.
-  exists dup_witness. eexists. split; [vm_compute; reflexivity|]. split; [|reflexivity].
-  intros Hu. apply (Hu [mk ":method" "GET"] (mk ":path" "") [] (mk ":path" "/a") [mk ":authority" "x"; mk ":scheme" "https"]).
-  - reflexivity.
-  - exists (bs "path"). reflexivity.
-  - reflexivity.
-Qed.
+Lemma dup_witness_rejected :
+  parseHeaders true 65536 dup_witness false = inl (EMalformed DupPseudo) /\
+  parseHeaders false 65536 [mk ":status" ""; mk ":status" "200"] false = inl (EMalformed DupPseudo).
+Proof. split; vm_compute; reflexivity. Qed.
 
 Definition cl_witness : list field :=
   [mk ":method" "POST"; mk ":scheme" "https"; mk ":authority" "x"; mk ":path" "/"; mk "content-length" ""].
 
-Lemma content_length_numeric_refuted :
-  exists fs h, parseHeaders true 65536 fs false = inr h /\ ~ cl_wf fs /\ hCL h = -1 /\ hget (bs "Content-Length") (hHeaders h) = None.
-Proof.
-  exists cl_witness. eexists. split; [vm_compute; reflexivity|]. split; [|split; reflexivity].
-  intros [Hn _]. destruct (Hn (mk "content-length" "")) as [Hne _].
-  - simpl. auto 10.
-  - reflexivity.
-  - apply Hne. reflexivity.
-Qed.
+Lemma cl_witness_rejected :
+  parseHeaders true 65536 cl_witness false = inl (EMalformed CLInvalid).
+Proof. vm_compute. reflexivity. Qed.
 
 (** * Error classes *)
 
@@ -210,7 +193,7 @@ Proof.
     + inversion H. split; eauto.
   - destruct (ploop isReq (pinit lim) fs false) as [e'|st] eqn:Hl.
     + inversion H; subst e'. apply ploop_err in Hl as [[-> Hl]|[r ->]]; auto.
-    + unfold pfinish in H. destruct (is_empty (pCL st)); [discriminate|].
+    + unfold pfinish in H. destruct (negb (pReadCL st)); [discriminate|].
       destruct (parse_uint63 (pCL st)); [discriminate|]. inversion H. exact I.
 Qed.
 
@@ -350,13 +333,13 @@ Qed.
 
 Theorem requestFromHeaders_sound lim fs te uri r :
   0 <= lim -> requestFromHeaders lim fs te uri = inr r ->
-  te = false /\ WFx true lim fs /\ request_rules_x fs /\
+  te = false /\ WF true lim fs /\ request_rules_x fs /\
   rqMethod r = last_value (bs ":method") fs /\ rqHost r = last_value (bs ":authority") fs /\
   rqCL r = hCL (hdr_of fs).
 Proof.
   intros Hlim H. unfold requestFromHeaders in H.
   destruct (parseHeaders true lim fs te) as [e|h] eqn:Hp; [discriminate|].
-  apply parseHeaders_sound in Hp as (Hte & Hw & ->); auto.
+  apply parseHeaders_sound in Hp as (Hte & Hw & _ & ->); auto.
   apply request_of_rules in H as (R1 & R2 & R3 & R4 & _). auto 10.
 Qed.
 
@@ -424,12 +407,12 @@ Qed.
 
 Theorem updateResponse_sound lim fs te r :
   0 <= lim -> updateResponseFromHeaders lim fs te = inr r ->
-  te = false /\ WFx false lim fs /\ last_value (bs ":status") fs <> [] /\
+  te = false /\ WF false lim fs /\ last_value (bs ":status") fs <> [] /\
   atoi (last_value (bs ":status") fs) = Some (rsCode r) /\ rsCL r = hCL (hdr_of fs).
 Proof.
   intros Hlim H. unfold updateResponseFromHeaders in H.
   destruct (parseHeaders false lim fs te) as [e|h] eqn:Hp; [discriminate|].
-  apply parseHeaders_sound in Hp as (Hte & Hw & ->); auto.
+  apply parseHeaders_sound in Hp as (Hte & Hw & _ & ->); auto.
   unfold response_of in H. rewrite hdr_of_ps in H. unfold pseudos_of in H. cbn [sStatus] in H.
   destruct (is_empty (last_value (bs ":status") fs)) eqn:Es; [discriminate|]. apply is_empty_false in Es.
   destruct (extract_trailers _) as [hd' tr].
@@ -440,24 +423,10 @@ Qed.
 (** * Rejection completeness (the contrapositive reading of soundness) *)
 
 Theorem parseHeaders_reject isReq lim fs te :
-  0 <= lim -> ~ WFx isReq lim fs -> exists e, parseHeaders isReq lim fs te = inl e.
+  0 <= lim -> ~ WF isReq lim fs -> exists e, parseHeaders isReq lim fs te = inl e.
 Proof.
   intros Hlim Hn. destruct (parseHeaders isReq lim fs te) as [e|h] eqn:H; [eauto|].
   apply parseHeaders_sound in H as (_ & Hw & _); auto. contradiction.
-Qed.
-
-Theorem parseHeaders_reject_rfc isReq lim fs te :
-  0 <= lim -> ~ WF isReq lim fs -> no_empty_pseudo fs -> no_empty_cl fs ->
-  exists e, parseHeaders isReq lim fs te = inl e.
-Proof.
-  intros Hlim Hn Hp Hc. apply parseHeaders_reject; auto. intros Hw. apply Hn. apply WFx_WF; auto.
-Qed.
-
-Theorem parseHeaders_sound_rfc isReq lim fs te h :
-  0 <= lim -> parseHeaders isReq lim fs te = inr h -> no_empty_pseudo fs -> no_empty_cl fs ->
-  WF isReq lim fs /\ h = hdr_of fs.
-Proof.
-  intros Hlim H Hp Hc. apply parseHeaders_sound in H as (_ & Hw & Hh); auto. split; auto. apply WFx_WF; auto.
 Qed.
 
 Theorem parseTrailers_reject lim fs te :
@@ -515,7 +484,7 @@ Lemma nonvacuous_trailers :
 Proof. eexists. vm_compute. reflexivity. Qed.
 
 Lemma nonvacuous_rejection :
-  ~ WFx true 65536 [mk ":method" "GET"; mk "x" "a"; mk ":path" "/"].
+  ~ WF true 65536 [mk ":method" "GET"; mk "x" "a"; mk ":path" "/"].
 Proof.
   intros (_ & Hpf & _).
   specialize (Hpf [mk ":method" "GET"] (mk "x" "a") [] (mk ":path" "/") [] eq_refl).
